@@ -57,12 +57,32 @@ def deletions(s):
             paths(it, path + [i])
     paths(t, [])
     out.sort(key=len)
+    halves = []
+    def lists(x, path):
+        if isinstance(x, str):
+            return
+        o, items = x
+        if o == '[' and len(items) >= 4:
+            halves.append((path, len(items)))
+        for i, it in enumerate(items):
+            lists(it, path + [i])
+    lists(t, [])
+    def keep(x, path, lo, hi):
+        o, items = x
+        if not path:
+            return (o, items[lo:hi])
+        return (o, [keep(it, path[1:], lo, hi) if i == path[0] else it for i, it in enumerate(items)])
+    pre = []
+    for path, n in halves:
+        pre.append(show(keep(t, path, 0, n // 2)))
+        pre.append(show(keep(t, path, n // 2, n)))
+        pre.append(show(keep(t, path, 0, n - 1)))
     def delete(x, path):
         o, items = x
         if len(path) == 1:
             return (o, items[:path[0]] + items[path[0] + 1:])
         return (o, [delete(it, path[1:]) if i == path[0] else it for i, it in enumerate(items)])
-    return [show(delete(t, p)) for p in out]
+    return pre + [show(delete(t, p)) for p in out]
 
 def q(num, den=1):
     from fractions import Fraction
